@@ -33,6 +33,21 @@ namespace drv {
       if (&tk.lexeme().spelling() != &s || tk.value() != v || tk.category() != c) bad |= 2u;
       return bad;
    }
+   // redeclaring changes nothing that could be observed through the earlier declaration, except that its declaration-set grew at the end
+   unsigned st_redeclaration(const Name& n, const Type& t, const ipr::Forall& q)
+   {
+      auto& r = *new impl::Region{ Optional<ipr::Region>{ } }; unsigned bad = 0;
+      const ipr::Var& v1 = *r.declare_var(n, t);
+      const ipr::Decl* m1 = &v1.master(); const ipr::Name* n1 = &v1.name(); const ipr::Type* t1 = &static_cast<const ipr::Expr&>(v1).type();
+      const ipr::Template& p1 = *r.declare_primary_template(n, q);
+      const ipr::Template* prim = &p1.primary_template();
+      const ipr::Var& v2 = *r.declare_var(n, t);                                      // redeclarations
+      const ipr::Template& p2 = *r.declare_primary_template(n, q);
+      if (&v1.master() != m1 || m1 != &v1 || &v1.name() != n1 || &static_cast<const ipr::Expr&>(v1).type() != t1) bad |= 1u;
+      if (&p1.primary_template() != prim || prim != &p1) bad |= 2u;
+      if (v1.decl_set().size() != 2 || &*v1.decl_set().position(0) != &v1 || &*v1.decl_set().position(1) != &v2 || p1.decl_set().size() != 2 || &*p1.decl_set().position(1) != &p2) bad |= 4u;
+      return bad;
+   }
    // a unified node obtained earlier is still what the same request returns after other requests, and reads as before
    unsigned st_unified(L& lx, const Type& t, const Type& u, const Expr& e)
    {
